@@ -269,7 +269,10 @@ def require_all(
             which chain composition propagates rather than swallowing.
         inner: The credential that establishes caller identity. When ``None``
             the gate alone authenticates — "only my proxy may call this
-            worker", with user identity handled upstream.
+            worker", with user identity handled upstream. A gate that passes
+            a request whose precondition it could not verify (claims
+            ``verified == "false"``) does not authenticate it: the request
+            proceeds anonymously.
 
     Returns:
         A callback ``(falcon.Request) -> AuthContext`` suitable for
@@ -282,6 +285,13 @@ def require_all(
     def authenticate(req: falcon.Request) -> AuthContext:
         claims = gate(req)
         if inner is None:
+            if claims.get("verified") == "false":
+                # A gate that lets a request through without having verified
+                # its precondition (a proxy-proof gate in ``allow`` mode) says
+                # so in its claims.  There is nothing to authenticate the
+                # caller by, so it proceeds anonymously; the claims still
+                # record what the gate saw.
+                return AuthContext(domain=None, authenticated=False, claims={gate.claims_key: claims})
             return AuthContext(
                 domain=gate.name,
                 authenticated=True,
